@@ -201,7 +201,7 @@ META["C09"] = {
 }
 
 META["C08"]["probes"] = [
-    {"name": "send_sync", "class": "C08/memcase-not-send-sync", "bins": [("send_sync", "compiles")], "expect": "compiles"},
+    {"name": "send_sync", "class": "C08/memcase-not-send-sync", "control": "control", "bins": [("control", "compiles"), ("send_sync", "compiles")], "expect": "compiles"},
 ]
 META["C09"]["probes"] = [
     {"name": "eps_outlive", "class": "C09/eps-result-outlives-buffer", "control": "control", "expect": "fails",
